@@ -53,6 +53,10 @@ pub enum Step {
 	/// build a temporary by-reference collection over existing members with a
 	/// checked constructor, then drop it / take it apart again
 	TempColl { kind: KindTag, members: Vec<MemberSpec>, then: TempThen },
+	/// after an injected raw fault: every lock whose raw operation panicked
+	/// must refuse try_* (Err) and blocking acquisition (panic).  Stand-alone
+	/// leaves are probed directly, by-value leaves through `fallback`.
+	ProbeFaulted { fallback: TargetRef },
 }
 
 #[derive(Clone, Debug, PartialEq, Serialize, Deserialize)]
